@@ -9,6 +9,22 @@ structure Cur (m : Map) : Prop where
   cnt : m.entries = m.data.countP (fun (e : Entry) => decide (1 < e.key))
   nodup : NoDup m.data
   hashed : Hashed m.data m.capacity
+  del : m.deleted = tombstones m
+
+/-- one slot rewritten: how the number of slots in a class changes -/
+theorem countP_set_gen (q : Entry → Bool) {d : List Entry} {p : Nat} {e e' : Entry} (h : d[p]? = some e) :
+    (d.set p e').countP q + (q e).toNat = d.countP q + (q e').toNat := by
+  obtain ⟨hp, hpe⟩ := getElem_of_getElem? h
+  rw [List.countP_set hp, hpe]
+  have hpos : (q e).toNat ≤ d.countP q := by
+    cases hq : q e
+    · exact Nat.zero_le _
+    · exact List.countP_pos_iff.mpr ⟨e, by rw [← hpe]; exact List.getElem_mem hp, hq⟩
+  generalize d.countP q = c at hpos ⊢
+  clear hp hpe h
+  revert hpos
+  cases q e <;> cases q e' <;> intro hpos <;>
+    simp only [Bool.toNat_true, Bool.toNat_false, Bool.false_eq_true, ↓reduceIte] at hpos ⊢ <;> omega
 
 def NoTomb (m : Map) : Prop := ∀ (i : Nat) (e : Entry), m.data[i]? = some e → e.key ≠ 1
 
@@ -24,8 +40,8 @@ theorem insertCore_spec {m : Map} (hC : Cur m) (hlt : m.entries < m.capacity) (h
     {k : Nat} (v : Nat) (hk : 1 < k) :
     ∃ m', insertCore m k v = .ok m' ∧ Cur m' ∧ m'.capacity = m.capacity ∧ m'.gcEpoch = m.gcEpoch ∧
       (∀ k' v', Lookup m' k' v' ↔ ((k' = k ∧ v' = v) ∨ (k' ≠ k ∧ Lookup m k' v'))) ∧
-      ((∃ v0, Lookup m k v0) → m'.entries = m.entries) ∧
-      ((∀ v0, ¬ Lookup m k v0) → m'.entries = m.entries + 1) ∧
+      ((∃ v0, Lookup m k v0) → m'.entries = m.entries ∧ m'.deleted = m.deleted) ∧
+      ((∀ v0, ¬ Lookup m k v0) → m'.entries = m.entries + 1 ∧ m'.deleted ≤ m.deleted) ∧
       (NoTomb m → NoTomb m') := by
   obtain ⟨n, hc⟩ := hC.pow2
   have hcpos : 0 < m.capacity := pow2_pos ⟨n, hc⟩
@@ -47,25 +63,25 @@ theorem insertCore_spec {m : Map} (hC : Cur m) (hlt : m.entries < m.capacity) (h
     rw [show m.capacity - d0 + d0 = m.capacity by omega] at heq
     have hp : i < m.data.length := (getElem_of_getElem? hl.1).1
     rw [heq, show m.capacity - d0 = (m.capacity - d0 - 1) + 1 by omega,
-      insertLoop_stop hk (e := ⟨k, v0⟩) (by rw [hidx]; exact hl.1) (Or.inr rfl), hidx]
-    have hk0 : ¬ ((⟨k, v0⟩ : Entry).key = 0) := by simp; omega
-    rw [if_neg hk0]
+      insertLoop_stop_live hk (e := ⟨k, v0⟩) (by rw [hidx]; exact hl.1) rfl, hidx]
     obtain ⟨h1, h2, h3⟩ := set_spec (v := v) hk hp hC.nodup hC.hashed
       (fun j k' v' hj hne hkk => hne (by subst hkk; exact hC.nodup _ _ _ _ _ hj hl))
       (fun k' v' hj => by have := hj.1; rw [hl.1] at this; cases this; rfl)
       (by obtain ⟨D, hD, hDi, hpath⟩ := hC.hashed i k v0 hl; exact ⟨D, hD, hDi, hpath⟩)
     have hcnt := countP_set_live (e' := ⟨k, v⟩) hl.1
-    refine ⟨_, rfl, ⟨⟨n, hc⟩, by simp [hC.len], ?_, h1, h2⟩, rfl, rfl, h3, fun _ => rfl, ?_, hnt i⟩
+    have htomb := countP_set_gen (fun (e : Entry) => e.key == 1) (e' := ⟨k, v⟩) hl.1
+    have hk1 : (k == 1) = false := by simp; omega
+    simp only [hk1, Bool.toNat_false, Nat.add_zero] at htomb
+    refine ⟨_, rfl, ⟨⟨n, hc⟩, by simp [hC.len], ?_, h1, h2, ?_⟩, rfl, rfl, h3, fun _ => ⟨rfl, rfl⟩, ?_, hnt i⟩
     · simp only [hk, hl.2, if_true] at hcnt
       have := hC.cnt
       simp only; omega
+    · have := hC.del; unfold tombstones at this ⊢; simp only; omega
     · intro habs; exact absurd ⟨i, hl⟩ (habs v0)
   · have habs : ∀ v0, ¬ Lookup m k v0 := fun v0 h => hpres ⟨v0, h⟩
     obtain ⟨d0, e0, hd0, he0, hk0, hskip⟩ := locate_absent hC.len hk habs he
     obtain ⟨acc', heq, hnone, hsome⟩ := insertLoop_skip hc k v d0 (m.capacity - d0) k none hskip
     rw [show m.capacity - d0 + d0 = m.capacity by omega] at heq
-    rw [heq, show m.capacity - d0 = (m.capacity - d0 - 1) + 1 by omega,
-      insertLoop_stop hk he0 (Or.inl hk0), if_pos hk0]
     -- where the entry goes
     have hpI : ∃ (pI dI : Nat) (eI : Entry), acc'.getD ((k + d0) % m.capacity) = pI ∧
         dI ≤ d0 ∧ pI = (k + dI) % m.capacity ∧ m.data[pI]? = some eI ∧ eI.key ≤ 1 := by
@@ -76,24 +92,45 @@ theorem insertCore_spec {m : Map} (hC : Cur m) (hlt : m.entries < m.capacity) (h
         · cases h
         · exact ⟨i0, j, e, rfl, by omega, hij, hei, by omega⟩
     obtain ⟨pI, dI, eI, hpeq, hdI, hpI, heI, hkI⟩ := hpI
-    rw [hpeq]
+    rw [heq, show m.capacity - d0 = (m.capacity - d0 - 1) + 1 by omega,
+      insertLoop_stop_empty he0 hk0 (by rw [hpeq]; exact heI), hpeq]
     have hp : pI < m.data.length := (getElem_of_getElem? heI).1
     obtain ⟨h1, h2, h3⟩ := set_spec (v := v) hk hp hC.nodup hC.hashed
       (fun j k' v' hj _ hkk => habs v' ⟨j, by subst hkk; exact hj⟩)
       (fun k' v' hj => by have := hj.1; rw [heI] at this; cases this; have := hj.2; simp at hkI; omega)
       ⟨dI, by omega, hpI.symm, fun j hj => skip_nonEmpty (hskip j (by omega))⟩
     have hcnt := countP_set_live (e' := ⟨k, v⟩) heI
-    refine ⟨_, rfl, ⟨⟨n, hc⟩, by simp [hC.len], ?_, h1, h2⟩, rfl, rfl, h3, ?_, fun _ => rfl, hnt pI⟩
-    · have hn : ¬ (1 < eI.key) := by omega
-      simp only [hk, hn, if_true, if_false] at hcnt
-      have := hC.cnt
-      simp only; omega
-    · intro ⟨v0, h⟩; exact absurd h (habs v0)
+    have htomb := countP_set_gen (fun (e : Entry) => e.key == 1) (e' := ⟨k, v⟩) heI
+    have hk1 : (k == 1) = false := by simp; omega
+    have hn : ¬ (1 < eI.key) := by omega
+    simp only [hk1, Bool.toNat_false, Nat.add_zero] at htomb
+    simp only [hk, hn, if_true, if_false] at hcnt
+    have hcn := hC.cnt
+    have hdl := hC.del
+    unfold tombstones at hdl
+    by_cases hI1 : eI.key = 1
+    · have hb : (eI.key == 1) = true := by simp [hI1]
+      rw [hb] at htomb; simp only [Bool.toNat_true] at htomb
+      have hd : ¬ (m.deleted = 0) := by omega
+      rw [if_pos hI1, if_neg hd]
+      refine ⟨_, rfl, ⟨⟨n, hc⟩, by simp [hC.len], ?_, h1, h2, ?_⟩, rfl, rfl, h3, ?_, fun _ => ⟨rfl, by simp only; omega⟩, ?_⟩
+      · simp only; omega
+      · unfold tombstones; simp only; omega
+      · intro ⟨v0, h⟩; exact absurd h (habs v0)
+      · intro hT; exact absurd hI1 (hT pI eI heI)
+    · have hb : (eI.key == 1) = false := by simp [hI1]
+      rw [hb] at htomb; simp only [Bool.toNat_false, Nat.add_zero] at htomb
+      rw [if_neg hI1]
+      refine ⟨_, rfl, ⟨⟨n, hc⟩, by simp [hC.len], ?_, h1, h2, ?_⟩, rfl, rfl, h3, ?_, fun _ => ⟨rfl, Nat.le_refl _⟩, hnt pI⟩
+      · simp only; omega
+      · unfold tombstones; simp only; omega
+      · intro ⟨v0, h⟩; exact absurd h (habs v0)
 
 theorem removeLoop_spec {m : Map} (hC : Cur m) {k : Nat} (hk : 1 < k) (he : HasEmpty m) :
     ∃ r m', removeLoop m k m.capacity (k % m.capacity) = .ok (r, m') ∧ Cur m' ∧ m'.capacity = m.capacity ∧
       m'.gcEpoch = m.gcEpoch ∧ (∀ v, r = some v ↔ Lookup m k v) ∧
-      (∀ k' v', Lookup m' k' v' ↔ (k' ≠ k ∧ Lookup m k' v')) ∧ m'.entries ≤ m.entries ∧ HasEmpty m' := by
+      (∀ k' v', Lookup m' k' v' ↔ (k' ≠ k ∧ Lookup m k' v')) ∧ m'.entries + m'.deleted ≤ m.entries + m.deleted ∧
+      HasEmpty m' := by
   obtain ⟨n, hc⟩ := hC.pow2
   have hcpos : 0 < m.capacity := pow2_pos ⟨n, hc⟩
   by_cases hpres : ∃ v0, Lookup m k v0
@@ -110,8 +147,12 @@ theorem removeLoop_spec {m : Map} (hC : Cur m) {k : Nat} (hk : 1 < k) (he : HasE
     have hk0 : ¬ ((⟨k, v0⟩ : Entry).key = 0) := by simp; omega
     rw [if_neg hk0, if_neg hne]
     obtain ⟨h1, h2, h3⟩ := del_spec hp hC.nodup hC.hashed hl
-    refine ⟨_, _, rfl, ⟨⟨n, hc⟩, by simp [hC.len], ?_, h1, h2⟩, rfl, rfl, ?_, h3, by simp only; omega, ?_⟩
+    have htomb := countP_set_gen (fun (e : Entry) => e.key == 1) (e' := ⟨1, 0⟩) hl.1
+    have hk1 : (k == 1) = false := by simp; omega
+    simp only [hk1, Bool.toNat_false, Nat.add_zero, show ((1 : Nat) == 1) = true from rfl, Bool.toNat_true] at htomb
+    refine ⟨_, _, rfl, ⟨⟨n, hc⟩, by simp [hC.len], ?_, h1, h2, ?_⟩, rfl, rfl, ?_, h3, by simp only; omega, ?_⟩
     · have := hC.cnt; simp only; omega
+    · have := hC.del; unfold tombstones at this ⊢; simp only; omega
     · intro v; constructor
       · intro h; cases h; exact ⟨i, hl⟩
       · rintro ⟨j, hj⟩
@@ -200,6 +241,7 @@ theorem rehashLoop_spec (ep c : Nat) : ∀ (rest : List Entry) (nm : Map), Cur n
     by_cases ha : 1 < a.key
     · simp only [ha, if_true, decide_true] at hload ⊢
       have hcpos : 0 < nm.capacity := pow2_pos hC.pow2
+      have hd0 : nm.deleted = 0 := by rw [hC.del, tombstones_zero hT]
       have hnov : overflow nm = false := by unfold overflow; simp; omega
       have hlt : nm.entries < nm.capacity := by omega
       have hE : HasEmpty nm := hasEmpty_of_counts hC.len hC.cnt (by rw [tombstones_zero hT]; omega)
@@ -213,8 +255,8 @@ theorem rehashLoop_spec (ep c : Nat) : ∀ (rest : List Entry) (nm : Map), Cur n
           rcases (hlk1 e.key v).mp hl with ⟨h3, _⟩ | ⟨_, h3⟩
           · exact hpw.1 e he ha h3.symm
           · exact habs e (List.mem_cons_of_mem _ he) hek v h3)
-        hpw.2 (by rw [hent1 habsa]; omega)
-      refine ⟨nm', h2, hC2, hT2, hcap2, hep2, by rw [hent2, hent1 habsa]; omega, ?_⟩
+        hpw.2 (by rw [(hent1 habsa).1]; omega)
+      refine ⟨nm', h2, hC2, hT2, hcap2, hep2, by rw [hent2, (hent1 habsa).1]; omega, ?_⟩
       intro k v
       rw [hlk2, hlk1]
       constructor
